@@ -10,7 +10,8 @@ with a statement is handed to the specification as events:
                                (kind ` or ") and block comments (kind /*)
   ["select",""] ["from",""] ["union",""]
   ["alias", a]     table alias in a from-list (`AS a`, bare `t a`, a table used
-                   without alias, UNNEST/JSON_EACH/explode aliases)
+                   without alias, UNNEST/JSON_EACH/explode aliases; not the
+                   relation name of `AS name(col, ..)`)
   ["ref", a]       first component of a dotted name a.column / a.* (not a
                    table name in a from-list, not after `)`/`]`/`.`, not a
                    namespaced function call NET.HOST(...))
@@ -315,7 +316,11 @@ def Events(text, dialect):
             ev.append(['alias', parts[-1]])
       elif (top and top[1] == 'from' and len(parts) == 1 and
             prev[:2] != ('p', '.')):
-        ev.append(['alias', v])
+        # `AS pushkin(x)` (Trino/Presto/Databricks UNNEST) names the columns;
+        # the relation name pushkin is reused for every UNNEST of a from-list
+        # and never referenced: not an alias definition for the scoper.
+        if toks[j][:2] != ('p', '('):
+          ev.append(['alias', v])
       elif (len(parts) >= 2 and prev[:2] not in (('p', '.'), ('p', ')'),
                                                  ('p', ']')) and
             toks[j][:2] != ('p', '(')):
